@@ -230,6 +230,20 @@ pub fn marker_bounds<T: Copy + Eq + core::fmt::Debug + Send + Sync + 'static>() 
 '''
 
 
+PANIC_PROBE_DSL = 'name: M, initial: A, dynamic: true, states: [A(u32), B], events { go { transition: { from: A, to: B } } }'
+PANIC_PROBE_ROOT = '''
+#[panic_handler]
+fn on_panic(_: &core::panic::PanicInfo) -> ! { loop {} }
+'''
+PANIC_PROBE_MOD = '''#![allow(dead_code, unused)]
+use state_machines::state_machine;
+state_machine! {
+    %s
+}
+pub fn drive() -> &'static str { let mut d = DynamicM::new(1u8); let _ = d.handle(MEvent::Go); d.current_state() }
+''' % PANIC_PROBE_DSL
+
+
 def k3_nostd(ctx):
     b = ctx.stage('k2build', lambda: k2run.k2_build(ctx))
     if not b['ok']:
@@ -281,6 +295,17 @@ def k3_nostd(ctx):
                          % (msg, ties_k3._line(crate, 'src/n%d.rs' % i, ln))})
     if rc != 0 and not diags:
         problems.append({'dsl': None, 'what': 'cargo failed: ' + se[-500:]})
+    # the facade and the generated code must stay free of std in every feature configuration: a #![no_std] crate that
+    # brings its own #[panic_handler] cannot be built once std is anywhere in its dependency graph (E0152)
+    for feat in (False, True):
+        pc = os.path.join(ctx.dir, 'k3np%d' % feat)
+        ties_k3.write_lib_crate(pc, [('m0', PANIC_PROBE_MOD)], extra_root=PANIC_PROBE_ROOT, features=feat, no_std=True)
+        rc2, diags2, se2 = ties_k3.cargo_check(pc, target='target-k3n', build=True)
+        n_asserts += 1
+        if rc2 != 0:
+            msg = ('%s %s' % (diags2[0]['code'], diags2[0]['msg'][:300])) if diags2 else se2[-400:]
+            problems.append({'dsl': PANIC_PROBE_DSL, 'what': 'a #![no_std] crate with its own panic handler does not build against the '
+                             'library (crate feature dynamic=%s): %s' % (feat, msg)})
     return {'ok': True, 'n': len(mods), 'asserts': n_asserts, 'problems': problems,
             'sample': mods[0][1].splitlines()[-3:] if mods else None}
 
@@ -289,7 +314,9 @@ def k3_nostd(ctx):
 
 ADV_TYPES = ['a', 'b', 'e', 'A_', 'AB', 'Ab', 'C', 'S', 'T', 'Ok', 'Err', 'Some', 'None', 'Result', 'Option', 'Default', 'Debug', 'Self_', 'Box', 'Vec',
              'PhantomData', 'GuardError', 'DynamicError', 'AroundStage', 'M', 'MEvent', 'DynamicM', 'AnyMState', 'Machine',
-             'State', 'Event', 'Inner', 'Ctx2', 'A1', 'X']
+             'State', 'Event', 'Inner', 'Ctx2', 'A1', 'X',
+             # words that are keywords of the Ruby gem's DSL or of neighbouring libraries: they are ordinary identifiers here
+             'any', 'all', 'same', 'nil', 'except', 'loopback', 'initial_', 'state', 'event']
 ADV_VALUES = ['x_y', 'step_2', 'go_2_x', 'a_1', 'zz_top', 'b', 'new', 'handle', 'name', 'into_dynamic', 'current_state', 'ok', 'err', 'default', 'clone', 'inner', 'ctx',
               'payload', 'state', 'event', 'm', 'self_', 'new_machine', 'old_machine', 'machine', 'data', 'other', 'current',
               'fmt', 'eq', 'x', 'c', 's', 'a_data', 'state_data_a', 'into_a', 'set_a_data', 'callback_name']
@@ -360,7 +387,7 @@ def rename_variants(ctx):
             pool = ADV_TYPES if role in ('state', 'super', 'name') else ADV_VALUES
             if ctx.tier == 'quick':
                 rnd = random.Random('%d|%s|%d' % (ctx.seed, role, bi))
-                must = [x for x in pool if x in ('a', 'b', 'e', 'AB', 'Ab', 'C', 'S', 'T', 'Ok', 'Err', 'Some', 'None', 'Result', 'Option', 'Default', 'new', 'handle', 'ctx', 'inner', 'into_dynamic',
+                must = [x for x in pool if x in ('a', 'b', 'e', 'AB', 'Ab', 'C', 'S', 'T', 'Ok', 'Err', 'Some', 'None', 'Result', 'Option', 'Default', 'new', 'handle', 'ctx', 'inner', 'into_dynamic', 'any', 'all',
                                                  'x_y', 'step_2', 'go_2_x', 'a_1', 'zz_top', 'b')]
                 rest = [x for x in pool if x not in must]
                 pool = must + rnd.sample(rest, min(6, len(rest)))
